@@ -126,6 +126,8 @@ def main(argv=None) -> int:
         jobs.append((base, "check_unknown_name", lines["check_unknown_name"], 90 if quick else 600))
         jobs.append((base, "twin_unknown_name", lines["twin_unknown_name"], 30))
         jobs.append((base, "check_near_miss_names", lines["check_near_miss_names"], 60))
+        jobs.append((base, "check_equal_distinct", lines["check_equal_distinct"], 90))
+        jobs.append((base, "twin_equal_distinct", lines["twin_equal_distinct"], 30))
         jobs.append((base, "check_yielded", lines["check_yielded"], 90))
         jobs.append((base, "twin_yielded", lines["twin_yielded"], 30))
         jobs.append((base, "check_decorated", lines["check_decorated"], 90))
